@@ -161,7 +161,9 @@ CHECKS["C15"] = dict(
           "latest fetch is live and is_loading is exactly its liveness (C15_loading_iff_latest_outstanding), a completion of any other fetch changes nothing (C15_stale_completion_ignored), the "
           "completion of the latest installs its result and ends loading (C15_latest_completion_wins), a write keeps the old value readable (C15_old_value_readable), the value is always the "
           "result of some started fetch. The system is compared with the real create_isomorphic_resource under 0-3/0-4 writes x every subset, order and placement of completions (incl. never, "
-          "stale, repeated) and the oracle restates the three clauses on the observed sequence."),
+          "stale, repeated) and the oracle restates the three clauses on the observed sequence. Variants, each with the same model or a proved reduction to it: a feedback edge from the value to the "
+          "dependency behind a selector (C15_feedback_is_plain); a PAIR of dependencies on((d, d2), ..) with each write going to one of them; a fetch future that itself moves the dependency on in its "
+          "last poll before returning (superseded before it can deliver: C15_self_write_is_plain; this variant found F25, repaired)."),
     note=ATB + " The abort of the previous fetch by the effect's cleanup is part of the runtime covered by C04/C14.", design="5.C15")
 
 DTB = ("Trusted: the in-process DOM harness/dom/shims (web-sys / js-sys / wasm-bindgen stand-ins: WHATWG pre-insert / remove / replace, fragment flattening, an HTML parser for server output) in place of a browser; "
